@@ -173,6 +173,20 @@ CHECKS = {
    note="Trusted: TLC, the normalisation operators of the spec. Known findings (recorded): lenient decoders accept undocumented re-spellings of the "
         "same digest bits; mssql2000 ignores its first digest. scram (multi-digest) is exempt from the integrity clause.",
    technique="TLA+ trace validation (Trace_HashFormat.tla) of mutation events recorded from the real hashers"),
+ "C11": dict(cat=MC, design="DESIGN.md §3 C11, §8",
+   text="spec/prim transcribes the standards into TLA+ and TLC evaluates them: Md4.tla (RFC 1320, self-tested on the RFC vectors) gives the digest "
+        "of every message length 0..300 x content class and of every update/copy/digest history of the hash object; Salsa.tla (RFC 7914 Salsa20/8, "
+        "BlockMix, ROMix, parameter validity; self-tested on the RFC vector and against OpenSSL scrypt) gives salsa20/bmix/smix/whole-scrypt results "
+        "for a grid of N, r, p, key lengths; Des.tla (FIPS 46-3 tables on bit sequences with crypt(3)'s salted E-box and iteration, 7-to-8 byte key "
+        "expansion; self-tested on the FIPS example and libxcrypt des/bsdi hashes) gives block results for unit-vector and random keys/blocks, salts "
+        "and 1..30 iterations; Hmac.tla emits the RFC 2104 / RFC 8018 HMAC, PBKDF1 and PBKDF2 programs per (digest, key length vs block size, rounds, "
+        "key length vs digest size) which are evaluated over hashlib's plain hash constructors; SaslPrep.tla decides RFC 4013 over all class strings "
+        "up to length 3/4 and over every class string a single code point normalises to. passlib's built-in md4 object, ScryptEngine/scrypt(), "
+        "des_encrypt_block/int_block/expand/shrink, compile_hmac (single and multipart), pbkdf1, pbkdf2_hmac and saslprep are compared with those values; "
+        "the bcrypt core is decided single-valued across passlib's engine, the bcrypt C library and libxcrypt by Trace_Func.tla.",
+   note="Trusted: TLC, the transcriptions (each validated against an independent provider before use), hashlib/OpenSSL, libxcrypt, bcrypt-C, "
+        "Python's stringprep/unicodedata tables. Blowfish is not transcribed into TLA+ (cross-provider only). NFKC is abstract in SaslPrep.tla.",
+   technique="TLA+ transcriptions of the standards (Md4, Salsa, Des, Hmac, SaslPrep) evaluated by TLC as oracle + replay on the built-in primitives; Trace_Func single-valuedness for bcrypt"),
 }
 PENDING = {}
 props = [json.loads(l) for l in open(os.path.join(HERE, "properties.jsonl"))]
